@@ -139,11 +139,19 @@ func (f *AppArmorProfileFile) resolveValues(input string) ([]string, error) {
 				// Only this occurrence: a second one takes all the values again
 				// The quotes around a value delimit it, they are not part of it
 				inner, quoted := unquote(v)
-				newValues := strings.Replace(input, variable, inner, 1)
+				// A double slash is only folded where the value meets the
+				// text around it: elsewhere it may be meant (a label)
+				idx := strings.Index(input, variable)
+				newValues := input[:idx]
+				for _, part := range []string{inner, input[idx+len(variable):]} {
+					if strings.HasSuffix(newValues, "/") {
+						part = strings.TrimLeft(part, "/")
+					}
+					newValues += part
+				}
 				if _, ok := unquote(input); quoted && !ok {
 					newValues = `"` + newValues + `"`
 				}
-				newValues = strings.ReplaceAll(newValues, "//", "/")
 				res, err := f.resolveValues(newValues)
 				if err != nil {
 					return nil, err
